@@ -1,5 +1,48 @@
 import Ptn.C03.Model
-/-! Line-protocol handler for the C03 model (core Lean only). -/
+/-! Line-protocol handler for C03 (core Lean only).
+
+  canon <n:d> … | <n:a,b,c> …   → `ok|keyerror <node>target …` : QR operations of canonical_form
+                                  (dist table in dict order; neighbour lists parent first)
+  move <c> <x1> … <xk>          → `<final centre> <node>target …`
+-/
 namespace Ptn.C03
-def handle (args : List String) : String := "bad-op"
+
+def parsePair (s : String) : Option (Nat × Nat) :=
+  match s.splitOn ":" with
+  | [a, b] => match a.toNat?, b.toNat? with
+    | some x, some y => some (x, y)
+    | _, _ => none
+  | _ => none
+
+def parseNbr (s : String) : Option (Nat × List Nat) :=
+  match s.splitOn ":" with
+  | [a, b] =>
+    match a.toNat? with
+    | none => none
+    | some x =>
+      if b = "" then some (x, []) else
+        match (b.splitOn ",").mapM (·.toNat?) with
+        | some l => some (x, l)
+        | none => none
+  | _ => none
+
+def showOps (ops : List Op) : String := " ".intercalate (ops.map fun o => s!"{o.node}>{o.target}")
+
+def handle (args : List String) : String :=
+  match args with
+  | "canon" :: rest =>
+    let distToks := rest.takeWhile (· ≠ "|")
+    let nbrToks := (rest.dropWhile (· ≠ "|")).drop 1
+    match distToks.mapM parsePair, nbrToks.mapM parseNbr with
+    | some dist, some nb =>
+      let nbrs : Nat → List Nat := fun n => ((nb.find? (·.1 == n)).map (·.2)).getD []
+      let flag := if canonComplete dist nbrs then "ok" else "keyerror"
+      (flag ++ " " ++ showOps (canonOps dist nbrs)).trimAscii.toString
+    | _, _ => "bad-op"
+  | "move" :: path =>
+    match path.mapM (·.toNat?) with
+    | some (c :: rest) => (toString (finalCentre c (c :: rest)) ++ " " ++ showOps (moveOps (c :: rest))).trimAscii.toString
+    | _ => "bad-op"
+  | _ => "bad-op"
+
 end Ptn.C03
